@@ -305,7 +305,8 @@ int liberasurecode_instance_create(const ec_backend_id_t id,
 
     if (args->k < 1 || args->m < 0)
         return -EINVALIDPARAMS;
-    if ((args->k + args->m) > EC_MAX_FRAGMENTS) {
+    if (args->k > EC_MAX_FRAGMENTS || args->m > EC_MAX_FRAGMENTS ||
+            (args->k + args->m) > EC_MAX_FRAGMENTS) {
         log_error("Total number of fragments (k + m) must be less than %d\n",
                   EC_MAX_FRAGMENTS);
         return -EINVALIDPARAMS;
